@@ -67,7 +67,13 @@ def check_categories(ctx):
         tl = bool(prog.attr_const(c, "is_time_like", False))
         if "time-derived" in cats or c.name == "Time":
             f = prog.lookup_method(c, "compute_from_times")
-            returns_ts = c.name == "Time" or (f is not None and "calendar.timegm" in norm(f[1]))
+            src_ = norm(f[1]) if f is not None else ""
+            if f is not None:
+                # helpers of the module that the method calls (one level): _to_unixtimes(dts) etc.
+                for n_ in ast.walk(f[1]):
+                    if isinstance(n_, ast.Call) and isinstance(n_.func, ast.Name) and n_.func.id in m.functions:
+                        src_ += "\n" + norm(m.functions[n_.func.id])
+            returns_ts = c.name == "Time" or "calendar.timegm" in src_
             ctx.ob("C11.3", c.qual, tl == returns_ts, "is_time_like=%s agrees with returning unix timestamps" % tl, loc=prog.loc(m, c.node),
                    msg="axis %s: is_time_like=%s but its buckets %s unix timestamps (labels/ticks would be formatted wrongly)" % (c.name, tl, "are" if returns_ts else "are not"))
 
